@@ -701,6 +701,7 @@ fn stream_stats(st: &StreamStats, obs: &mut Obs) {
     obs.add("xa:macros-with-parameters-generated", st.macros_with_params);
     obs.add("xa:the-generated", st.the);
     obs.add("xa:conditionals-generated", st.conditionals);
+    obs.add("xa:toks-register-assignments-generated", st.toks_assignments);
     if st.truncated {
         obs.count("xa:truncated-streams");
     }
